@@ -7,8 +7,10 @@ Control-flow model of `tme/matching_exhaustive.py`:
 * `handler`      = `device_memory_handler` (`sys.exc_info()` on entry, `try: with SharedMemoryManager()`,
                    `except Exception` → capture, `finally` → `_handle_traceback` re-raises `Exception(value)`);
 * `scanP`        = the body of `scan` as program points / allocations in program order
-                   (`to_backend`, setup, `template_filter`, analyzer instances, `Parallel` over the rotation
-                   chunks of `_split_rotations_on_jobs`, `_postprocess` per returned analyzer, `merge`);
+                   (`to_backend`, the user's template / target filters (`Compose`), setup, `template_filter`,
+                   analyzer instances, `Parallel` over the rotation chunks of `_split_rotations_on_jobs`,
+                   `_postprocess` per returned analyzer, `merge`); every single `to_sharedarr` is a program
+                   point of its own (creating a segment can fail: `/dev/shm` exhausted);
 * `runPool`      = `joblib.Parallel(n_jobs)`: tasks complete in a schedule-chosen order, the first failure
                    aborts the pool; tasks still in flight are killed (`Policy.kill`, what loky does:
                    `terminate(kill_workers=True)`) or allowed to finish (`Policy.drain`);
@@ -23,10 +25,14 @@ namespace Pm.C16
 inductive Phase
   | subset | toBackend | setupPre | setupPost | analyzerInit | scoreEntry | rotate | callback
   | postprocess | merge | outerMerge
+  | filter     -- a user filter of `matching_data.template_filter` (idx 0) / `target_filter` (idx 1) is applied
+  | alloc      -- the idx-th `be.to_sharedarr(arr, shared_memory_handler)` of this tile's `scan`
+  | collect    -- `tuple(callback._postprocess(...))`: the idx-th analyzer's `__iter__` copies its results out
 deriving DecidableEq, Repr, Inhabited
 
 /-- a program point: phase × tile × index (rotation index for `rotate`/`callback`, first rotation of the
-chunk for `scoreEntry`, instance / job number for `analyzerInit` / `postprocess`, else 0) -/
+chunk for `scoreEntry`, instance / job number for `analyzerInit` / `postprocess`, which filter for `filter`,
+serial number of the allocation inside its `scan` for `alloc`, job number for `collect`, else 0) -/
 structure Pos where
   phase : Phase
   tile : Nat
@@ -157,6 +163,8 @@ structure Cfg where
   cbSegs : Nat        -- segments one analyzer instance allocates when constructed
   postSegs : Nat      -- segments one analyzer allocates in _postprocess
   copies : Bool       -- conversion to the backend copies the arrays (`attr_value.copy()`)
+  tfilter : Bool := false   -- `matching_data.template_filter` is a `Compose`
+  gfilter : Bool := false   -- `matching_data.target_filter` is a `Compose`
 deriving Repr, Inhabited
 
 /-- `n_callback_classes = max(n_jobs // jobs_per_callback_class, 1)` with `jobs_per_callback_class = 1`
@@ -178,14 +186,32 @@ def jobSteps (cfg : Cfg) (t j : Nat) : List Step :=
   let c := chunk cfg.nrot cfg.inner j
   .point ⟨.scoreEntry, t, c.headD cfg.nrot⟩ :: c.flatMap (rotSteps cfg t)
 
-def initSteps (cfg : Cfg) (t k : Nat) : List Step := [.point ⟨.analyzerInit, t, k⟩, .alloc cfg.cbSegs]
+/-- `n` consecutive `be.to_sharedarr(arr, shared_memory_handler)` calls, the first one being allocation
+number `k0` of this `scan`: each is a program point (it raises when the segment cannot be created) followed
+by the segment -/
+def allocSteps (t k0 n : Nat) : List Step :=
+  (List.range n).flatMap (fun i => [.point ⟨.alloc, t, k0 + i⟩, .alloc 1])
+
+/-- `_setup_template_filter_apply_target_filter`: the template filter is evaluated first, then the target filter -/
+def filterSteps (cfg : Cfg) (t : Nat) : List Step :=
+  (if cfg.tfilter then [.point ⟨.filter, t, 0⟩] else []) ++ (if cfg.gfilter then [.point ⟨.filter, t, 1⟩] else [])
+
+def initSteps (cfg : Cfg) (t k : Nat) : List Step :=
+  .point ⟨.analyzerInit, t, k⟩ :: allocSteps t (cfg.setupSegs + 1 + k * cfg.cbSegs) cfg.cbSegs
 
 def preSteps (cfg : Cfg) (t : Nat) : List Step :=
-  [.point ⟨.toBackend, t, 0⟩, .point ⟨.setupPre, t, 0⟩, .write cfg.copies, .alloc cfg.setupSegs,
-   .point ⟨.setupPost, t, 0⟩, .alloc 1] ++
+  (.point ⟨.toBackend, t, 0⟩ :: filterSteps cfg t) ++
+  ([.point ⟨.setupPre, t, 0⟩, .write cfg.copies] ++ allocSteps t 0 cfg.setupSegs ++
+   (.point ⟨.setupPost, t, 0⟩ :: allocSteps t cfg.setupSegs 1)) ++
   (if cfg.hasCb then (List.range (nCallbackClasses cfg)).flatMap (initSteps cfg t) else [])
 
-def postJobSteps (cfg : Cfg) (t j : Nat) : List Step := [.point ⟨.postprocess, t, j⟩, .alloc cfg.postSegs]
+/-- number of the first allocation made after the pool of scoring jobs -/
+def postBase (cfg : Cfg) : Nat :=
+  cfg.setupSegs + 1 + (if cfg.hasCb then nCallbackClasses cfg * cfg.cbSegs else 0)
+
+def postJobSteps (cfg : Cfg) (t j : Nat) : List Step :=
+  (.point ⟨.postprocess, t, j⟩ :: allocSteps t (postBase cfg + j * cfg.postSegs) cfg.postSegs) ++
+  [.point ⟨.collect, t, j⟩]
 
 def postSteps (cfg : Cfg) (t : Nat) : List Step :=
   if cfg.hasCb then (List.range cfg.inner).flatMap (postJobSteps cfg t) ++ [.point ⟨.merge, t, 0⟩] else []
